@@ -840,7 +840,7 @@ func c04Engines(c *Ctx) {
 	}
 	r.Check(len(bad) == 0 && n >= 4, "R04-engines", "every bundled engine uses a covered Search", "", "", fmt.Sprintf("%s (%d engine constructions)", strings.Join(bad, "; "), n))
 	// sargon.Hook.Search returns the wrapped result unchanged
-	if hk := c.find("cmd/sargon/sargon", "Hook", "Search"); hk != nil {
+	if hk := forwardedBody(c.find("cmd/sargon/sargon", "Hook", "Search")); hk != nil {
 		good := false
 		for _, b := range hk.Blocks {
 			if ret, ok := b.Instrs[len(b.Instrs)-1].(*ssa.Return); ok && len(ret.Results) == 4 {
@@ -1041,4 +1041,63 @@ func dependsOnValue(cond, v ssa.Value, gt *goTarget) bool {
 		return false
 	}
 	return walk(cond, 0)
+}
+
+
+// forwardedBody: a function that does nothing but hand its parameters to one function of its package and return that
+// function's results unchanged stands for it; the function that holds the body is returned (fn itself otherwise).
+func forwardedBody(fn *ssa.Function) *ssa.Function {
+	for depth := 0; fn != nil && depth < 3; depth++ {
+		if len(fn.Blocks) != 1 {
+			return fn
+		}
+		instrs := fn.Blocks[0].Instrs
+		ret, ok := instrs[len(instrs)-1].(*ssa.Return)
+		if !ok || len(ret.Results) == 0 {
+			return fn
+		}
+		var call *ssa.Call
+		if len(ret.Results) == 1 {
+			call, _ = ret.Results[0].(*ssa.Call)
+		} else {
+			for i, v := range ret.Results {
+				ex, ok := v.(*ssa.Extract)
+				if !ok || ex.Index != i {
+					return fn
+				}
+				cl, ok := ex.Tuple.(*ssa.Call)
+				if !ok || (call != nil && cl != call) {
+					return fn
+				}
+				call = cl
+			}
+		}
+		if call == nil || call.Call.IsInvoke() {
+			return fn
+		}
+		f := call.Call.StaticCallee()
+		if f == nil || f.Blocks == nil || f.Pkg != fn.Pkg {
+			return fn
+		}
+		for _, a := range call.Call.Args {
+			if _, isParam := stripConv(a).(*ssa.Parameter); !isParam {
+				if _, isConst := a.(*ssa.Const); !isConst {
+					return fn
+				}
+			}
+		}
+		for _, ins := range instrs[:len(instrs)-1] {
+			switch x := ins.(type) {
+			case *ssa.Extract:
+			case *ssa.Call:
+				if x != call {
+					return fn
+				}
+			default:
+				return fn
+			}
+		}
+		fn = f
+	}
+	return fn
 }
